@@ -4,6 +4,7 @@ import (
 	"fmt"
 	"math/big"
 	"runtime"
+	"time"
 
 	sdkmath "cosmossdk.io/math"
 	sdk "github.com/cosmos/cosmos-sdk/types"
@@ -122,7 +123,7 @@ func DefaultGas(k TxKind) uint64 {
 }
 
 // createOKInit: constructor logs once, returns 1-byte runtime (STOP).
-func createOKInit() []byte { return asm.InitCodeWith(asm.New().Log1(9).Bytes(), []byte{asm.STOP}) }
+func createOKInit() []byte   { return asm.InitCodeWith(asm.New().Log1(9).Bytes(), []byte{asm.STOP}) }
 func createFailInit() []byte { return asm.New().Revert().Bytes() }
 
 // BuildTx turns a spec into tx bytes for world w with base fee b.
@@ -230,3 +231,5 @@ func Shards() int {
 
 // IsEth tells whether a kind is an Ethereum-lane tx.
 func (k TxKind) IsEth() bool { return k != KCosmosSend }
+
+func secs(n int) time.Duration { return time.Duration(n) * time.Second }
